@@ -37,6 +37,16 @@ func (s *State) clone() *State {
 }
 
 func (s *State) assume(t *Term) {
+	if t.open {
+		// facts about values read under a quantifier in a spec expression: keep the closed conjuncts only
+		var keep []*Term
+		for _, c := range conjuncts(t) {
+			if !c.open {
+				keep = append(keep, c)
+			}
+		}
+		t = And(keep...)
+	}
 	s.pc = And(s.pc, t)
 }
 
@@ -147,6 +157,11 @@ func (s *State) load(a *Addr) Val {
 		}
 		return v
 	}
+	if a.Kind == AGlobal {
+		if v, ok := sentinelVals[a.Key]; ok {
+			return v
+		}
+	}
 	ls := shapeOf(a.T)
 	ts := make([]*Term, len(ls))
 	for i, l := range ls {
@@ -160,6 +175,7 @@ func (s *State) load(a *Addr) Val {
 
 func (s *State) store(a *Addr, v Val) {
 	if a.Kind == ACell {
+		cellID(a.Cell)
 		s.cells[a.Cell] = v
 		return
 	}
@@ -202,7 +218,8 @@ func mergeStates(es []edgeState) *State {
 		common, ra, rb := splitCommon(a.pc, out.pc)
 		c := ra
 		// cells: keep those present in both
-		for k, bv := range out.cells {
+		for _, k := range sortedCells(out.cells) {
+			bv := out.cells[k]
 			av, ok := a.cells[k]
 			if !ok {
 				delete(out.cells, k)
@@ -233,6 +250,26 @@ func mergeStates(es []edgeState) *State {
 		}
 		out.pc = And(common, Or(ra, rb))
 	}
+	return out
+}
+
+// cell identities in first-use order, so that every iteration over cells is deterministic
+var cellIDs = map[*ssa.Alloc]int{}
+
+func cellID(c *ssa.Alloc) int {
+	if id, ok := cellIDs[c]; ok {
+		return id
+	}
+	cellIDs[c] = len(cellIDs) + 1
+	return cellIDs[c]
+}
+
+func sortedCells(m map[*ssa.Alloc]Val) []*ssa.Alloc {
+	out := make([]*ssa.Alloc, 0, len(m))
+	for k := range m {
+		out = append(out, k)
+	}
+	sort.Slice(out, func(i, j int) bool { return cellIDs[out[i]] < cellIDs[out[j]] })
 	return out
 }
 
